@@ -111,6 +111,12 @@ func init() {
 			// the minimum liquidity of a new pool: sqrt(v0*v1) must exceed the 1000 units that are locked for good
 			tx("A create pool COINA/MAXED 1000/1000 pip (liquidity = the locked minimum)", transaction.TypeCreateSwapPool, A, transaction.CreateSwapPoolData{Coin0: CoinCoinA, Coin1: CoinMaxed, Volume0: big.NewInt(1000), Volume1: big.NewInt(1000)}, 0),
 			tx("A create pool COINA/MAXED 1001/1001 pip (one unit above it)", transaction.TypeCreateSwapPool, A, transaction.CreateSwapPoolData{Coin0: CoinCoinA, Coin1: CoinMaxed, Volume0: big.NewInt(1001), Volume1: big.NewInt(1001)}, 0),
+			// a ticker creation with a gas price above 1 (the ticker fee is multiplied, the price table is not)
+			func() Tx {
+				t := tx("B create coin GASPRIC(7) at gas price 3", transaction.TypeCreateCoin, B, cc("GASPRIC", e18(1000), e18(10000), 40, e18(100000)), 0)
+				t.GasPrice = 3
+				return t
+			}(),
 			// a sale of BIP into a coin cheaper than 1 BIP: the coins minted (not the BIP paid) are what the supply bound is about
 			tx("B sell 300001 BIP for COINA (mints just past max supply)", transaction.TypeSellCoin, B, transaction.SellCoinData{CoinToSell: 0, ValueToSell: e18(300001), CoinToBuy: CoinCoinA, MinimumValueToBuy: big.NewInt(0)}, 0),
 			tx("B sell 299999 BIP for COINA (mints just below max supply)", transaction.TypeSellCoin, B, transaction.SellCoinData{CoinToSell: 0, ValueToSell: e18(299999), CoinToBuy: CoinCoinA, MinimumValueToBuy: big.NewInt(0)}, 0),
